@@ -6,7 +6,7 @@
 From Coq Require Import List NArith ZArith Bool.
 From LTV Require Import Common.Bytes.
 From LTV.C07 Require Import Model.
-From LTV.C08 Require Import Model ProofsOrder ProofsLoad ProofsTotal ProofsTok ProofsB32 ProofsDecode ProofsMain.
+From LTV.C08 Require Import Model ProofsOrder ProofsLoad ProofsTotal ProofsTok ProofsB32 ProofsDecode ProofsTrace ProofsMain.
 Import ListNotations.
 Local Open Scope N_scope.
 
@@ -167,3 +167,8 @@ Theorem load_total_bytes : forall (H : bytes -> bytes) s r,
   load_bytes H s = Some r -> (exists d, r = LOk d) \/ r = LErr EInput \/ r = LErr EBencode.
 Proof. exact ProofsMain.load_total_bytes. Qed.
 Print Assumptions load_total_bytes.
+
+(* the branch-coverage instrumentation of the model's magnet parser does not change its results *)
+Theorem parse_magnet_hash_t_erase : forall uri, fst (parse_magnet_hash_t uri) = parse_magnet_hash uri.
+Proof. exact ProofsTrace.parse_magnet_hash_t_erase. Qed.
+Print Assumptions parse_magnet_hash_t_erase.
